@@ -99,8 +99,10 @@ def collect_routes(idx: Index, res: Result) -> List[Route]:
                 handled_calls.add(id(outer))
                 return
 
+    in_table_loop: Set[int] = set()
     for fi in idx.all_funcs("BPTK_Py/"):
-        for stmt in walk_no_nested(fi.node):
+        stmts = sorted([n for n in walk_no_nested(fi.node) if isinstance(n, ast.stmt)], key=lambda n: (n.lineno, n.col_offset))
+        for stmt in stmts:
             if isinstance(stmt, ast.For) and isinstance(stmt.iter, (ast.List, ast.Tuple)):
                 # for path, methods, handler in [ (..), ... ]: self.route(path, methods=methods)(handler)
                 tgt = stmt.target
@@ -118,7 +120,9 @@ def collect_routes(idx: Index, res: Result) -> List[Route]:
                             visit_stmt(b, fi, env)
                     for c in iter_calls(stmt):
                         handled_calls.add(id(c))
-            elif isinstance(stmt, ast.Expr):
+                    for b in ast.walk(stmt):
+                        in_table_loop.add(id(b))
+            elif isinstance(stmt, ast.Expr) and id(stmt) not in in_table_loop:
                 visit_stmt(stmt, fi, {})
     # anything else that looks like registration is an unknown idiom
     for fi in idx.all_funcs("BPTK_Py/"):
